@@ -202,7 +202,7 @@ class ExactBackend(object):
     def fft(self, *a, **k):
         raise TypeError('not polynomial')
 
-    real = tile = tanh = fft
+    real = tile = tanh = special = fft
 
 
 def _inputs(point_rings, order):
